@@ -39,6 +39,12 @@ func runC09(c *Ctx) {
 	c.Rule("C09.O6", "nil-flow", "a value bound by `v, ok := x.(T)` is dereferenced only on paths dominated by ok", 10)
 	c.Rule("C09.O8", "E4", "Content-Length accounting: Write adds len(data) to bodyWritten at most once per call and on every path that accepts the bytes; writeChunk is only reached with a non-empty chunk (an empty one would encode the terminating chunk)", 3)
 	c09Accounting(c)
+	c.Rule("C09.O9", "E4", "the head is encoded only after the framing was decided: every call of eoncodeHead is dominated (in its function, or at every call of its function) by WriteHeader and checkChunked, so no entry point (Write, WriteString, ReadFrom, Flush, the final flush) emits a head without status line or with the wrong framing fields", 4)
+	c.Rule("C09.O10", "E4", "ReadFrom hands raw reader bytes to the connection (Sendfile, io.Copy to the conn) only on the edge where the response is not chunked and tested its declared Content-Length; it copies from the reader it was given (a LimitedReader's bound is kept)", 3)
+	c.Rule("C09.O11", "nil-flow", "Response.buffer / Response.bodyBuffer are dereferenced only behind a non-nil test of the same pointer or a dominating assignment from the pool in the same function, with no clearing store in between", 15)
+	c09HeadAndRaw(c)
+	c.Rule("C09.O12", "E4,E6", "WriteHeader keeps a Content-Length header only when it parsed without error to a value >= 0: every path from the parse that does not delete the field carries both outcomes", 1)
+	c09KeepsValidLength(c)
 	c.Rule("C09.O7", "E2-ext", "a buffer from Malloc(n), n != 0, is truncated or filled before it is the destination of Append/AppendString", 10)
 
 	write := c.Fn("C09.O1", "(*nbhttp.Response).Write")
@@ -758,4 +764,283 @@ func c09Accounting(c *Ctx) {
 		bad = "no call of writeChunk found"
 	}
 	c.Cond(bad == "", "C09.O8", "writeChunk only with a non-empty chunk", "", fmt.Sprintf("%d call site(s) behind l != 0", n), bad)
+}
+
+// c09HeadAndRaw: O9 (framing decided before the head is encoded), O10 (raw
+// reader bytes only in identity framing with a declared length), O11 (nil
+// flow of the two response buffers).
+func c09HeadAndRaw(c *Ctx) {
+	scope := c.pkgFuncs("nbhttp")
+	const (
+		fnHead  = "(*nbhttp.Response).eoncodeHead"
+		fnWH    = "(*nbhttp.Response).WriteHeader"
+		fnCheck = "(*nbhttp.Response).checkChunked"
+	)
+	// ---- O9
+	var decided func(f *ssa.Function, at ssa.Instruction, depth int) string
+	decided = func(f *ssa.Function, at ssa.Instruction, depth int) string {
+		fi := c.P.Info(f)
+		need := map[string]bool{fnWH: true, fnCheck: true}
+		for _, cs := range c.P.CallsNamed(f, fnWH, fnCheck) {
+			if fi.Dominates(cs.In, at) {
+				delete(need, c.P.CalleeName(cs.Common))
+			}
+		}
+		if len(need) == 0 {
+			return ""
+		}
+		if depth >= 2 {
+			return "no dominating WriteHeader/checkChunked in " + c.P.FuncName(f)
+		}
+		// every static call of f must be decided
+		n := 0
+		for _, g := range scope {
+			for _, cs := range c.P.Calls(g, nil) {
+				if ir.StaticCallee(cs.Common) != f {
+					continue
+				}
+				n++
+				if why := decided(g, cs.In, depth+1); why != "" {
+					return why
+				}
+			}
+		}
+		if n == 0 {
+			return c.P.FuncName(f) + " reaches the head encoder at " + c.Pos(at) + " without a dominating WriteHeader and checkChunked: the head goes out without a status line (HTTP/1.1 000) and with the framing fields of a response that was never classified"
+		}
+		return ""
+	}
+	for _, f := range scope {
+		k := 0
+		for _, cs := range c.P.CallsNamed(f, fnHead) {
+			k++
+			why := decided(f, cs.In, 0)
+			c.Cond(why == "", "C09.O9", c.siteKey(f, "eoncodeHead", k), c.Pos(cs.In), "WriteHeader and checkChunked dominate", why)
+		}
+	}
+
+	// ---- O10
+	if rf := c.Fn("C09.O10", "(*nbhttp.Response).ReadFrom"); rf != nil {
+		fi := c.P.Info(rf)
+		var rparam *ssa.Parameter
+		for _, p := range rf.Params {
+			if p.Type().String() == "io.Reader" {
+				rparam = p
+			}
+		}
+		var clCall ssa.Value
+		for _, cs := range c.P.CallsNamed(rf, "(*nbhttp.Response).contentLength") {
+			clCall = cs.Value()
+		}
+		k := 0
+		for _, cs := range c.P.Calls(rf, nil) {
+			name := c.P.CalleeName(cs.Common)
+			raw := false
+			switch {
+			case name == "io.Copy" && len(cs.Common.Args) == 2:
+				d := c.P.Desc(ir.Resolve(cs.Common.Args[0]))
+				raw = strings.Contains(d, "Parser.Conn")
+			case strings.HasSuffix(name, ".Sendfile"):
+				raw = true
+			}
+			if !raw {
+				continue
+			}
+			k++
+			key := c.siteKey(rf, "raw body emission", k)
+			bad := ""
+			if !fi.HasFact(cs.In, func(ft ir.Fact) bool {
+				f, set, ok := c.P.BoolFieldTest(ft.Cond, ft.Truth)
+				return ok && f == "nbhttp.Response.chunked" && !set
+			}) {
+				bad = "reader bytes are handed to the connection at " + c.Pos(cs.In) + " without the response being known as not chunked: in a chunked response they go out unframed"
+			}
+			if bad == "" {
+				okCL := false
+				if clCall != nil {
+					for _, r := range *clCall.Referrers() {
+						if e, ok := r.(*ssa.Extract); ok && e.Index == 0 {
+							if lo, _ := fi.IntervalAt(cs.In, e); lo >= 1 {
+								okCL = true
+							}
+						}
+					}
+				}
+				if !okCL {
+					bad = "reader bytes are handed to the connection at " + c.Pos(cs.In) + " where the declared Content-Length is not known to be positive: with no declared length the head says Content-Length: 0 (or the length of what was buffered) and the bytes follow it"
+				}
+			}
+			c.Cond(bad == "", "C09.O10", key, c.Pos(cs.In), "identity framing with a tested length", bad)
+			if name == "io.Copy" && rparam != nil {
+				src := ir.Resolve(cs.Common.Args[1])
+				c.Cond(src == ssa.Value(rparam), "C09.O10", fnKey(c.P, rf, "fallback copy reads the given reader"), c.Pos(cs.In), "io.Copy(conn, r) with r the parameter",
+					"the copy at "+c.Pos(cs.In)+" reads from "+c.P.Desc(src)+" instead of the reader it was given: the bound of an io.LimitedReader (io.CopyN, http.ServeContent ranges) is dropped and more bytes than the declared Content-Length go out")
+			}
+		}
+	}
+
+	// ---- O11
+	fields := map[string]bool{"nbhttp.Response.buffer": true, "nbhttp.Response.bodyBuffer": true}
+	for _, f := range scope {
+		fi := c.P.Info(f)
+		// clearing stores and pool assignments per field
+		clear := map[string][]ssa.Instruction{}
+		assign := map[string][]ssa.Instruction{}
+		revive := map[ssa.Instruction]bool{}
+		for fld := range fields {
+			for _, st := range c.P.StoresTo(f, fld) {
+				if ir.IsNilConst(st.Val) {
+					clear[fld] = append(clear[fld], st)
+					continue
+				}
+				if call, ok := ir.Resolve(st.Val).(*ssa.Call); ok && strings.HasPrefix(c.P.CalleeName(&call.Call), "mempool.") {
+					assign[fld] = append(assign[fld], st)
+					revive[st] = true
+					continue
+				}
+				// a value known to be non-nil where it is stored
+				v := ir.Resolve(st.Val)
+				vf := c.P.LoadedField(v)
+				if fi.HasFact(st, func(ft ir.Fact) bool {
+					x, isNil, ok := ir.NilTest(ft.Cond, ft.Truth)
+					return ok && !isNil && (ir.Resolve(x) == v || vf != "" && c.P.LoadedField(x) == vf)
+				}) {
+					revive[st] = true
+				}
+			}
+		}
+		k := 0
+		for _, b := range f.Blocks {
+			for _, in := range b.Instrs {
+				u, ok := in.(*ssa.UnOp)
+				if !ok || u.Op != token.MUL {
+					continue
+				}
+				fld := c.P.LoadedField(u.X)
+				if !fields[fld] {
+					continue
+				}
+				k++
+				key := fmt.Sprintf("%s: *%s#%d", c.P.FuncName(f), fld, k)
+				ptr := ir.Resolve(u.X)
+				// 1. a non-nil fact on the very same pointer value
+				if fi.HasFact(in, func(ft ir.Fact) bool {
+					x, isNil, ok := ir.NilTest(ft.Cond, ft.Truth)
+					return ok && !isNil && ir.Resolve(x) == ptr
+				}) {
+					c.OK("C09.O11", key, c.Pos(in), "non-nil test of the same pointer value")
+					continue
+				}
+				// 2. a justification (non-nil test of another load of the field, or a pool assignment) that dominates, with no clearing store in between
+				var just []ssa.Instruction
+				for _, i := range fi.Ifs() {
+					for e := 0; e < 2; e++ {
+						x, isNil, ok := ir.NilTest(i.Cond, e == 0)
+						if ok && !isNil && c.P.LoadedField(x) == fld && fi.EdgeDominates(i, e, in.Block()) {
+							just = append(just, i)
+						}
+					}
+				}
+				for _, st := range assign[fld] {
+					if fi.Dominates(st, in) {
+						just = append(just, st)
+					}
+				}
+				good := false
+				for _, j := range just {
+					vis, _ := fi.Reach([]ssa.Instruction{j}, func(x ssa.Instruction) bool { return x == in })
+					hit := false
+					for _, cl := range clear[fld] {
+						if !vis[cl] {
+							continue
+						}
+						// the clearing store must be able to reach the dereference without passing the justification again
+						v2, _ := fi.Reach([]ssa.Instruction{cl}, func(x ssa.Instruction) bool { return x == j || revive[x] })
+						if v2[in] {
+							hit = true
+						}
+					}
+					if !hit {
+						good = true
+						break
+					}
+				}
+				c.Cond(good, "C09.O11", key, c.Pos(in), "dominated by a non-nil test or a pool assignment of the field, not cleared in between",
+					"*"+fld+" is dereferenced at "+c.Pos(in)+" where the field may be nil (other paths test it, and Write/Flush/flush clear it): a handler sequence that reaches this line after the buffer was handed over or released panics in the middle of the response")
+			}
+		}
+	}
+}
+
+// c09KeepsValidLength: O12.  A Content-Length the handler set goes on the wire
+// verbatim; net/http drops an unparsable or negative one.  WriteHeader is the
+// only place that validates it.
+func c09KeepsValidLength(c *Ctx) {
+	fn := c.Fn("C09.O12", "(*nbhttp.Response).WriteHeader")
+	if fn == nil {
+		return
+	}
+	fi := c.P.Info(fn)
+	key := fnKey(c.P, fn, "invalid Content-Length deleted")
+	var parse *ssa.Call
+	for _, cs := range c.P.CallsNamed(fn, "strconv.ParseInt", "strconv.Atoi", "strconv.ParseUint", "(*nbhttp.Response).contentLength") {
+		if call, ok := cs.In.(*ssa.Call); ok {
+			parse = call
+		}
+	}
+	if parse == nil {
+		c.Bad("C09.O12", key, c.FnPos(fn), "WriteHeader does not parse the Content-Length the handler set: an invalid or negative value goes on the wire")
+		return
+	}
+	var val, errv ssa.Value
+	for _, r := range *parse.Referrers() {
+		if e, ok := r.(*ssa.Extract); ok {
+			if e.Index == 0 {
+				val = e
+			} else {
+				errv = e
+			}
+		}
+	}
+	isDel := func(in ssa.Instruction) bool {
+		cs, ok := ir.AsCall(in)
+		if !ok {
+			return false
+		}
+		switch c.P.CalleeName(cs.Common) {
+		case "(net/http.Header).Del":
+			return true
+		case "builtin:delete":
+			return true
+		}
+		return false
+	}
+	paths, exits, complete := pathFactsAvoiding(fi, parse, isDel, 4096)
+	if !complete {
+		c.Unres("C09.O12", key, "too many paths")
+		return
+	}
+	bad := ""
+	for i, facts := range paths {
+		okErr := errv == nil
+		for _, ft := range facts {
+			if x, isNil, ok := ir.NilTest(ft.Cond, ft.Truth); ok && isNil && errv != nil && ir.Resolve(x) == errv {
+				okErr = true
+			}
+		}
+		lo := int64(ir.NegInf)
+		if val != nil {
+			lo, _ = ir.IntervalOf(facts, val)
+			// an unsigned parse cannot be negative
+			if c.P.CalleeName(&parse.Call) == "strconv.ParseUint" {
+				lo = 0
+			}
+		}
+		if !okErr {
+			bad = "a path from the parse at " + c.Pos(parse) + " to " + c.Pos(exits[i]) + " keeps the Content-Length field although the parse may have failed"
+		} else if lo < 0 {
+			bad = "a path from the parse at " + c.Pos(parse) + " to " + c.Pos(exits[i]) + " keeps the Content-Length field although the parsed value may be negative: 'Content-Length: -1' goes on the wire and the client cannot frame the response"
+		}
+	}
+	c.Cond(bad == "", "C09.O12", key, c.Pos(parse), fmt.Sprintf("%d keeping path(s), each with err == nil and value >= 0", len(paths)), bad)
 }
